@@ -1013,7 +1013,7 @@ def fam_custom(tier, seed):
     out.append(e8)
     # nested bitfields of assorted widths
     nested = {}
-    for w in (1, 3, 8, 12, 16, 24, 32, 40, 64, 100, 128):
+    for w in (1, 3, 8, 12, 16, 24, 32, 40, 63, 64, 65, 100, 127, 128):
         fs = [field("low", [(0, 0)], T_bool(), syn=w)]
         if w > 1:
             fs.append(field("rest", [(1, w - 1)], T_uint(w - 1), syn=w + 1))
@@ -1171,6 +1171,14 @@ def fam_build(tier, seed):
                 add("SelfOvl%d%s" % (base, tag), base, [field("x", [(0, 3), (2, 5)], T_uint(8))], dflt)
                 add("SelfOvlB%d%s" % (base, tag), base, [field("x", [(1, 1), (1, 1)], T_uint(2)), field("y", [(4, 5)], T_uint(2))], dflt)
                 add("SelfOvlArr%d%s" % (base, tag), base, [field("x", [(0, 1), (1, 2)], T_uint(4), array={"k": 2, "stride": 4})], dflt)
+    # many fields: one builder step per bit of the base (long type-state chains, masks up to 128 bits)
+    for base in (8, 33, 64, 65, 127, 128):
+        fs = []
+        for i in range(base):
+            t = T_bool() if i % 3 == 0 else T_uint(1)
+            fs.append(field("b%d" % i, [(i, i)], t, access="rw" if i % 5 else "w", syn=h("many", base, i) % SYN))
+        add("Many%dn" % base, base, fs, None)
+        add("Many%dd" % base, base, list(reversed([dict(f) for f in fs])), {"form": "=", "value": h("manyd", base) & ((1 << base) - 1)})
     return out
 
 
